@@ -1,10 +1,11 @@
 /-
   C04 — dt() maps every supported spelling of an instant to the same datetime.
   Property theorems only.  `Gen.num2dt`, `Gen.ym`, `Gen.ymd`, `Gen.ymdSwap`, `Gen.re_*` are GENERATED from the
-  current text of src/pyg_base/_dates.py on every run.  What goes through dateutil / numpy / pandas (month names, datetime64,
-  Timestamp) is decided by correspondence only; the ISO / yyyymmdd text written by dt2str is read back by the model's
-  scanner (assumed to be how dateutil reads it); here the string clauses are about the
-  dialect decision of uk2dt / us2dt on top of the assumed dateutil reading `duResolve`.
+  current text of src/pyg_base/_dates.py on every run.  What goes through numpy / pandas (datetime64, Timestamp) and the
+  month-name spellings are decided by correspondence only.  The string clauses are about the dialect decision of
+  uk2dt / us2dt (strip, ambiguity test, swap / rejection) on top of the ASSUMED dateutil reading (`duResolve`, the scanner
+  `parseTokens`); the texts are quantified through independent predicates (`IsNumeral`, `TimeText`, `MatchesAmbiguity`),
+  and `ambiguous_iff` ties the hand-written matcher to the semantics of the source regex.
 -/
 import PygModel.DateParse
 import PygProofs.Lemmas.BumpLemmas
